@@ -146,6 +146,22 @@ func (c *Ctx) runCensus(rule string, fns []*ssa.Function, kinds map[string]bool,
 				" is reachable from the entry points and is neither discharged by a checked side condition nor listed with a reason"+whyNot(p.Why))
 		}
 	}
+	// results of (T, error) calls are not dereferenced where the error is certainly set
+	if kinds == nil || kinds["errpath"] {
+		pairs, sites := an.ErrPathDerefs(fns)
+		c.R.Extra["result_pairs_"+rule] = pairs
+		ord := map[string]int{}
+		for _, s := range sites {
+			base := an.ShortName(s.Fn) + "/errpath:" + an.CalleeName(s.Call.Common())
+			ord[base]++
+			n++
+			c.R.Violate(rule, sprintf("ppo:%s#%d", base, ord[base]), c.pos(s.Use.Pos()), sprintf("%s of result %d of %s at a place reached only when the error result of that call is set: the result is nil there (nil dereference)", s.What, s.Index, an.CalleeName(s.Call.Common())))
+		}
+		if pairs > 0 {
+			n++
+			c.R.Hold(rule, "errpath:examined", "", sprintf("%d (pointer|interface, error) result pairs in the region: %d dereferences on an error-only path", pairs, len(sites)))
+		}
+	}
 	// stale triage entries are reported (a site that disappeared needs no entry) — informational only
 	var stale []string
 	for k := range tri {
